@@ -272,3 +272,79 @@ pub fn consensus_trace(prog: &V, env: &V, max_cost: u64) -> TraceFlags {
     let out = flags.borrow().clone();
     out
 }
+
+// ---------------------------------------------------------------------------------------------
+// modern compiler with explicit option sets
+
+#[derive(Clone, Copy, Debug, PartialEq, Eq)]
+pub struct ModernOpts {
+    pub optimize: bool,
+    pub frontend_opt: bool,
+    /// run the classic CLVM optimiser over the output (what -O / the library path do)
+    pub post_opt: bool,
+}
+
+impl ModernOpts {
+    /// what the command line derives for a sigil without -O
+    pub fn cli_default(stepping: i32) -> ModernOpts {
+        ModernOpts {
+            optimize: stepping > 22,
+            frontend_opt: stepping == 22,
+            post_opt: false,
+        }
+    }
+    pub fn name(&self) -> String {
+        format!(
+            "opt={} fe={} post={}",
+            self.optimize as u8, self.frontend_opt as u8, self.post_opt as u8
+        )
+    }
+}
+
+pub struct Compiled {
+    pub rich: Rc<SExp>,
+    pub code: V,
+    pub symbols: std::collections::HashMap<String, String>,
+}
+
+pub fn accepted_dialect(sigil: &str) -> chialisp::compiler::dialect::AcceptedDialect {
+    chialisp::compiler::dialect::KNOWN_DIALECTS
+        .get(sigil)
+        .map(|d| d.accepted.clone())
+        .unwrap_or_default()
+}
+
+pub fn compile_modern(
+    text: &str,
+    sigil: &str,
+    mo: ModernOpts,
+    filename: &str,
+    search: &[String],
+) -> Result<Compiled, (chialisp::compiler::srcloc::Srcloc, String)> {
+    use chialisp::compiler::comptypes::CompilerOpts;
+    let mut a = Allocator::new();
+    let mut symbols = std::collections::HashMap::new();
+    let runner: Rc<dyn TRunProgram> = Rc::new(DefaultProgramRunner::new());
+    let opts: Rc<dyn CompilerOpts> = Rc::new(chialisp::compiler::compiler::DefaultCompilerOpts::new(filename))
+        .set_dialect(accepted_dialect(sigil))
+        .set_search_paths(search)
+        .set_optimize(mo.optimize)
+        .set_frontend_opt(mo.frontend_opt);
+    let unopt = chialisp::compiler::compiler::compile_file(&mut a, runner.clone(), opts.clone(), text, &mut symbols)
+        .map_err(|e| (e.0, e.1))?;
+    let res = chialisp::compiler::optimize::maybe_finalize_program_via_classic_optimizer(
+        &mut a,
+        runner,
+        opts,
+        mo.post_opt,
+        &unopt,
+    )
+    .map_err(|e| (e.0, e.1))?;
+    // the output is converted in the thread's ambient (fixed) mode, as run/cldb/the library do
+    let n = convert_to_clvm_rs(&mut a, res.clone()).map_err(|e| (loc(), format!("{e:?}")))?;
+    Ok(Compiled {
+        rich: res,
+        code: V::from_node(&a, n),
+        symbols,
+    })
+}
